@@ -152,7 +152,7 @@ theorem fallback_collision_counterexample (ver : JoblibModel.MemoryCache.Version
     simp [this, dget]
   simp only [run, JoblibModel.MemoryCache.step, e1, e2]
 
-/-! ## One function identifier for several callables makes shelved references ambiguous (F34)
+/-! ## One function identifier for several callables makes shelved references ambiguous (F35)
 
 `UnivOK.fids` (one cached callable per function identifier) is needed: every `functools.partial`
 object gets the identifier `functools/unknown` (F32), and a `MemorizedResult` names its value by
